@@ -142,7 +142,8 @@ fn observe(c: &Case) -> (String, String) {
     )
 }
 
-const WS: [f32; 14] = [1.0, 0.5, 0.25, 0.0, 1e-45, 0.1, 0.3, 0.99999994, 0.7, 0.125, 0.333, 1.0, 0.5, 0.9];
+// (7.038531e-26 = bits 0x15ae43fd is the one f32 in [0,1] whose shortest decimal text, read as f64 and then narrowed, lands on its neighbour)
+const WS: [f32; 15] = [1.0, 0.5, 0.25, 0.0, 1e-45, 0.1, 0.3, 0.99999994, 0.7, 0.125, 0.333, 1.0, 0.5, 0.9, f32::from_bits(0x15ae_43fd)];
 
 fn weight(rng: &mut Rng) -> f32 {
     if rng.chance(1, 5) {
